@@ -526,8 +526,10 @@ Definition cmp_packages (a b : tpkg) : comparison :=
 
 Definition cmp_status (a b : ext * status) : comparison := bcmp (fst a) (fst b).
 
+(* Locations[0] (the file the package was extracted from) stays first; sort.Strings(pkg.Locations[1:]) *)
+Definition sort_tail (l : list bytes) : list bytes := match l with [] => [] | x :: l' => x :: isort bcmp l' end.
 Definition sort_locs (x : tpkg) : tpkg :=
-  (fst x, {| p_name := p_name (snd x); p_version := p_version (snd x); p_locs := isort bcmp (p_locs (snd x)) |}).
+  (fst x, {| p_name := p_name (snd x); p_version := p_version (snd x); p_locs := sort_tail (p_locs (snd x)) |}).
 
 Definition sort_packages (inv : list tpkg) : list tpkg := isort cmp_packages (map sort_locs inv).
 Definition sort_statuses (sts : list (ext * status)) : list (ext * status) := isort cmp_status sts.
